@@ -1,9 +1,108 @@
 import StraxModel.Driver.Parse
+import StraxModel.Model.Components
+import StraxModel.Generated.ShouldSave
+/-
+  Ops of property C11 (all start with `c11.`):
+    c11.comp <graph> <frontends> <targets> <save> <mods> <opts> <forbid>
+        graph     = plugins joined by `;`, plugin = `out:P,out:P/dep,dep` (P ∈ N E T A, `-` = no deps)
+        frontends = joined by `;`, frontend = `ro|storageType|takeOnly|exclude|complete|incomplete|stale`
+        mods      = 3 bits time_range, selection, columns ; opts = 2 bits fuzzy, allow_incomplete
+        (the two `_temp_` rules of check_cache are the GENERATED `Generated.rules`)
+        answer    = `ok L=t@i,.. P=t,.. S=t@i+j,.. T=t|t` (all sorted) or `err <Kind>`
+    c11.run  <same arguments>   answer = `ok ran=<indices of the plugins that compute> new=<savers>`
+    c11.should <P> <inTargets> <inSave>      (the GENERATED `_target_should_be_saved`)
+    c11.swval <P>                            (the GENERATED SaveWhen value)
+    c11.wetake <exclude> <takeOnly> <t>
+    c11.topo <graph>                         (hypothesis of `acyclic_no_recursion_error`)
+-/
 namespace Strax.Driver
-open Strax
+open Strax Strax.Components
 
-/-- ops of property C11 (stub: no ops yet) -/
+namespace C11
+
+def parsePol (s : String) : Option SaveWhen :=
+  if s == "N" then some .never else if s == "E" then some .explicit
+  else if s == "T" then some .target else if s == "A" then some .always else none
+
+def parseOutput (s : String) : Option (String × SaveWhen) :=
+  match s.splitOn ":" with
+  | [n, p] => do pure (n, ← parsePol p)
+  | _ => none
+
+def parsePlugin (s : String) : Option Plugin :=
+  match s.splitOn "/" with
+  | [outs, deps] => do pure ⟨← (splitList outs ",").mapM parseOutput, splitList deps ","⟩
+  | _ => none
+
+def parseGraph (s : String) : Option Graph := (splitList s ";").mapM parsePlugin
+
+def parseFrontend (s : String) : Option Frontend :=
+  match s.splitOn "|" with
+  | [ro, st, tk, ex, c, i, stl] => do
+    pure ⟨← parseBool ro, splitList tk ",", splitList ex ",", ← st.toNat?, splitList c ",", splitList i ",",
+          splitList stl ","⟩
+  | _ => none
+
+def parseBits (s : String) (n : Nat) : Option (List Bool) :=
+  let cs := s.toList
+  if cs.length == n then cs.mapM (fun c => if c == '1' then some true else if c == '0' then some false else none)
+  else none
+
+def insertStr (x : String) : List String → List String
+  | [] => [x]
+  | y :: ys => if x < y then x :: y :: ys else y :: insertStr x ys
+def sortStrs (l : List String) : List String := l.foldl (fun acc x => insertStr x acc) []
+
+def joinOr (sep : String) (l : List String) : String := if l.isEmpty then "-" else sep.intercalate l
+
+def showComponents (c : Components) : String :=
+  let ls := sortStrs (c.loaders.map fun (t, i) => s!"{t}@{i}")
+  let ps := sortStrs c.plugins
+  let ss := sortStrs (c.savers.map fun (t, is) => s!"{t}@{"+".intercalate (is.map toString)}")
+  let ts := sortStrs c.targets
+  s!"L={joinOr "," ls} P={joinOr "," ps} S={joinOr "," ss} T={joinOr "|" ts}"
+
+/-- indices of the (non-temporary) plugins that have to run: some output is to be computed -/
+def ranPlugins (g : Graph) (compute : List String) : List Nat :=
+  (g.zipIdx.filter fun (p, _) => !p.provides.any isTemp && p.provides.any compute.contains).map (·.2)
+
+def showRun (g : Graph) (c : Components) : String :=
+  let ss := sortStrs (c.savers.map fun (t, is) => s!"{t}@{"+".intercalate (is.map toString)}")
+  s!"ran={joinOr "," ((ranPlugins g c.plugins).map toString)} new={joinOr "," ss}"
+
+def parseEnv (g fs targets save mods opts forbid : String) : Option Env := do
+  let g ← parseGraph g
+  let fs ← (splitList fs ";").mapM parseFrontend
+  let m ← parseBits mods 3
+  let o ← parseBits opts 2
+  match m, o with
+  | [tr, sel, col], [fz, inc] =>
+    pure ⟨g, fs, splitList targets ",", splitList save ",", ⟨tr, sel, col⟩, ⟨fz, inc, splitList forbid ","⟩,
+          Generated.rules⟩
+  | _, _ => none
+
+end C11
+
+open C11 in
 def handleC11 : List String → Option String
+  | ["c11.comp", g, fs, targets, save, mods, opts, forbid] => do
+    let env ← parseEnv g fs targets save mods opts forbid
+    pure <| showExcept showComponents (getComponents env)
+  | ["c11.run", g, fs, targets, save, mods, opts, forbid] => do
+    let env ← parseEnv g fs targets save mods opts forbid
+    pure <| showExcept (showRun env.g) (getComponents env)
+  | ["c11.should", p, t, s] => do
+    let p ← parsePol p; let t ← parseBool t; let s ← parseBool s
+    pure <| showExcept (fun b => if b then "1" else "0") (Generated.shouldSave p t s)
+  | ["c11.swval", p] => do
+    let p ← parsePol p
+    pure s!"ok {Generated.saveWhenValue p}"
+  | ["c11.wetake", ex, tk, t] =>
+    let f : Frontend := { exclude := splitList ex ",", takeOnly := splitList tk "," }
+    pure (if f.weTake t then "ok 1" else "ok 0")
+  | ["c11.topo", g] => do
+    let g ← parseGraph g
+    pure (if topoOrdered g then "ok 1" else "ok 0")
   | _ => none
 
 end Strax.Driver
